@@ -1,6 +1,6 @@
 (* C19 — correspondence: what the harness observed on the implementation against the model and the specification *)
 From Coq Require Import List String ZArith Bool Ascii NArith.
-From C19 Require Import Model Spec Lex Session SessionSpec.
+From C19 Require Import Model Spec Lex Session SessionSpec Classes.
 Import ListNotations.
 Open Scope string_scope.
 Open Scope list_scope.
@@ -17,7 +17,10 @@ Inductive case :=
    user part of the two snapshot TEXTS is identical; whether every probe gave the same result in both processes *)
 | SCase (hist : list obj) (wildtext : bool) (snapfail : bool)   (* snapfail: (snapshot nil) itself failed *)
         (snap1 : list obj) (loadok : list bool) (snap2 : list obj)
-        (textsame probesame : bool).
+        (textsame probesame : bool)
+(* the classes section of a snapshot: the hierarchy of the session (class -> direct superclasses, in definition order)
+   and the names of the defclass forms of the snapshot in the order they are written *)
+| CCase (h : hier) (written : list string).
 
 Definition is_unmodelled {A} (r : res A) : bool := match r with Err EUnmodelled => true | _ => false end.
 
@@ -155,6 +158,17 @@ Definition check_case (c : case) : N :=
   match c with
   | SCase hist wildtext snapfail snap1 loadok snap2 textsame probesame =>
       check_session hist wildtext snapfail snap1 loadok snap2 textsame probesame
+  | CCase h written =>
+      (* model = implementation: self-check of the model against S; otherwise a failing input when the written order
+         puts a class before one it inherits from, writes a class twice or leaves one out *)
+      if (fix eqs (a b : list string) : bool :=
+            match a, b with
+            | [], [] => true
+            | x :: a', y :: b' => (x =? y)%string && eqs a' b'
+            | _, _ => false
+            end) (class_order h) written
+      then (if order_ok h (class_order h) then 0 else 3)%N
+      else (if order_ok h written then 1 else 2)%N
   | DCase v FNone _ _ _ => 0%N      (* nil offers no LoadForm method *)
   | DCase v form r equal texts =>
       let g := loadable v && no_inst v in
@@ -177,6 +191,7 @@ Definition check_all := check_all_from 0%N.
 
 Definition guarded (c : case) : bool :=
   match c with
+  | CCase _ _ => true
   | DCase v FNone _ _ _ => false
   | DCase v _ _ _ _ => loadable v && no_inst v
   | SCase hist wildtext _ _ _ _ _ _ =>
